@@ -8,7 +8,7 @@ Local Notation length := List.length.
 (* ---- the pipeline: the detector's label, its splitter (width tables of Gen/Detect.v, every scalar value), its encoder *)
 Definition w_label (l : label) (r : N) : nat := N.to_nat (width l r).
 Definition compose_label (l : label) (ref : N) (rs : list N) : outcome (list (part bytes)) :=
-  compose bytes (@length N) (w_label l) (encode_l l) ref rs.
+  Compose.compose bytes (@length N) (w_label l) (encode_l l) ref rs.
 Definition pipeline (ref : N) (rs : list N) : outcome (list (part bytes)) := compose_label (best rs) ref rs.
 Definition pipeline_safe (ref : N) (rs : list N) : outcome (list (part bytes)) := compose_label (best_safe rs) ref rs.
 
